@@ -25,6 +25,8 @@ func init() {
 			{Name: "pullid-subscribes-on-callers-context", File: "pkg/resource/collection.go", Old: "\tctx, cancel := context.WithCancel(ctx)\n\tchanges := c.Pull(ctx, opts...)\n", New: "\tchanges := c.Pull(ctx, opts...)\n\tctx, cancel := context.WithCancel(ctx)\n", Expect: "R10.6"},
 			{Name: "pullid-forces-backpressure", File: "pkg/resource/collection.go", Old: "\tchanges := c.Pull(ctx, opts...)\n", New: "\tchanges := c.Pull(ctx, append(append([]ReadOption{}, opts...), WithBackpressure(true))...)\n", Expect: "R10.8"},
 			{Name: "collect-filters-in-place", File: "internal/minibus/bus.go", Old: "\tvar activeListeners []*listener\n", New: "\tactiveListeners := b.listeners[:0]\n", Expect: "R10.5"},
+			{Name: "onoff-forwarder-bare-send", File: "pkg/trait/onoffpb/model.go", Old: "\t\t\tselect {\n\t\t\tcase <-ctx.Done():\n\t\t\t\treturn\n\t\t\tcase send <- PullOnOffChange{\n\t\t\t\tValue:      value,\n\t\t\t\tChangeTime: change.ChangeTime,\n\t\t\t}:\n\t\t\t}\n", New: "\t\t\tsend <- PullOnOffChange{\n\t\t\t\tValue:      value,\n\t\t\t\tChangeTime: change.ChangeTime,\n\t\t\t}\n", Expect: "R10.11"},
+			{Name: "waste-replay-keeps-lock-on-failure", File: "pkg/trait/wastepb/model.go", Old: "\t\t\t\tm.mu.Unlock()\n\t\t\t\treturn err\n", New: "\t\t\t\treturn err\n", Expect: "R10.12"},
 			{Name: "value-pull-unconditional-send", File: "pkg/resource/value.go", Old: "\t\t\t\tcontinue\n\t\t\t}\n\t\t\tlast = change.Value\n\t\t\tselect {\n\t\t\tcase <-ctx.Done():\n\t\t\t\treturn // give up sending\n\t\t\tcase typedEvents <- change:\n\t\t\t}", New: "\t\t\t\tcontinue\n\t\t\t}\n\t\t\tlast = change.Value\n\t\t\ttypedEvents <- change", Expect: "R10.1"},
 			{Name: "collection-pull-no-defer-close", File: "pkg/resource/collection.go", Old: "\tgo func() {\n\t\tdefer close(send)\n\n\t\t// held tracks", New: "\tgo func() {\n\t\t// held tracks", Expect: "R10.2"},
 			{Name: "stop-without-nil", File: "internal/minibus/bus.go", Old: "\t\tclose(l.ch)\n\t\tl.ch = nil", New: "\t\tclose(l.ch)", Expect: "R10.3"},
@@ -59,6 +61,12 @@ func runC10(c *an.Ctx) {
 	c.Min("R10.6", 1)
 	c.Min("R10.7", 1)
 	c.Min("R10.8", 1)
+	r1011(c, "R10.11")
+	c.Min("R10.11", 20)
+	r165held(c, "R10.13") // a removal is never judged a duplicate: a single-item subscription ends when its item goes (shared with R16.5)
+	c.Min("R10.13", 2)
+	r1012(c, "R10.12")
+	c.Min("R10.12", 30)
 }
 
 // forwarders of pkg/resource: function -> its goroutine bodies.
@@ -1034,5 +1042,112 @@ func r109(c *an.Ctx, rule string) {
 		}
 		c.Check(ok, rule, "(*internal/minibus.listener).alive|true while the listen context has no error", al.Pos(), "returns ctx.Err() == nil",
 			"listener.alive does not report `ctx.Err() == nil`: the garbage collection keeps the cancelled listeners and drops the live ones, which never receive another event")
+	}
+}
+
+// r1011: the forwarding goroutines of the trait models (`for change := range recv { send <- convert(change) }`) are
+// goroutines started for a subscription too. One that offers its value with a bare send waits for a receiver that
+// may never come: a consumer that stops receiving and then cancels (a server handler whose stream.Send failed
+// returns without draining) leaves the goroutine in that send forever, and the channel it handed out never closes.
+// Every send in such a goroutine is a select alternative next to the Done channel of the subscription's context.
+func r1011(c *an.Ctx, rule string) {
+	for _, fn := range c.Prog.FuncsIn("pkg/trait") {
+		if c.Prog.IsGenerated(fn.Pos()) || fn.Parent() == nil {
+			continue
+		}
+		file := c.Prog.RelFile(fn.Pos())
+		if !strings.HasSuffix(file, "/model.go") && !strings.HasSuffix(file, "/collection.go") {
+			continue
+		}
+		outer := fn.Parent()
+		for outer.Parent() != nil {
+			outer = outer.Parent()
+		}
+		hasCtx := false
+		for _, p := range outer.Params {
+			if an.NamedTypeName(p.Type()) == "context.Context" {
+				hasCtx = true
+			}
+		}
+		if !hasCtx || len(an.RecvLoops(fn)) == 0 {
+			continue
+		}
+		c.SawFunc(an.FuncName(fn))
+		for i, s := range an.Sends(fn) {
+			cons := fmt.Sprintf("%s|send#%d gives up when the subscription ends", an.FuncName(fn), i+1)
+			ok := false
+			if s.Select != nil {
+				for _, ctx := range an.SelectHasCtxDone(s.Select) {
+					if isSubscriptionCtx(ctx, outer) {
+						ok = true
+					}
+				}
+			}
+			c.Check(ok, rule, cons, s.Instr.Pos(), "select has <-ctx.Done() of the subscription context",
+				"the forwarding goroutine offers its value with a send that has no alternative: a subscriber that stops receiving and then cancels leaves the goroutine blocked in this send forever, and the channel it was given never closes")
+		}
+	}
+}
+
+// r1012: a lock taken inside a function is given back on every way out of it. The must-held set at each return
+// (entry set empty, so everything in it was acquired here) has to be covered by a deferred unlock of the same
+// lock; a return that leaves with a lock held and no deferred release is an exit on which every later user of
+// that lock - writers, readers, new subscribers - blocks forever.
+func r1012(c *an.Ctx, rule string) {
+	for _, fn := range c.Prog.FuncsIn("") {
+		if !an.InModule(fn) || len(fn.Blocks) == 0 || strings.HasSuffix(c.Prog.RelFile(fn.Pos()), "_test.go") {
+			continue
+		}
+		hasLock := false
+		deferred := map[string]bool{}
+		released := map[string]bool{}
+		deferredUnknown := false
+		an.Instrs(fn, func(in ssa.Instruction) {
+			if p, op, ok := an.LockOp(in); ok {
+				if op == "Unlock" || op == "RUnlock" {
+					released[p] = true
+				}
+				if _, isDefer := in.(*ssa.Defer); isDefer {
+					if op == "Unlock" || op == "RUnlock" {
+						deferred[p] = true
+					}
+					return
+				}
+				if op == "Lock" || op == "RLock" {
+					hasLock = true
+				}
+				return
+			}
+			if d, isDefer := in.(*ssa.Defer); isDefer {
+				if g := an.ClosureFn(d.Call.Value); g != nil {
+					an.Instrs(g, func(x ssa.Instruction) {
+						if _, op, ok := an.LockOp(x); ok && (op == "Unlock" || op == "RUnlock") {
+							deferredUnknown = true
+						}
+					})
+				}
+			}
+		})
+		if !hasLock {
+			continue
+		}
+		c.SawFunc(an.FuncName(fn))
+		li := an.Locks(fn, nil)
+		leaked, where := "", fn.Pos()
+		if !deferredUnknown {
+			for _, r := range an.Returns(fn) {
+				if r.Block() == fn.Recover {
+					continue
+				}
+				for p := range li.At(r) {
+					// (a function that never releases the lock it takes is an acquire helper: its callers release)
+					if !deferred[p] && released[p] {
+						leaked, where = p, r.Pos()
+					}
+				}
+			}
+		}
+		c.Check(leaked == "", rule, an.FuncName(fn)+"|locks taken here are released on every exit", where, "",
+			fmt.Sprintf("the function returns at %s with %s still locked and no deferred unlock: every later user of that lock blocks forever", c.Prog.Fset.Position(where), leaked))
 	}
 }
